@@ -1,7 +1,8 @@
 CONSTANTS
   MaxLen = 5
   LongLen = 6
-  StartPerms = {0, 420, 493, 511, 83, 2541, 3584, 4095}
+  StartPerms = {0, 420, 511, 83, 2541}
+  StringPerms = {420}
   DoubleGroups <- DoubleGroupsT
   DoublePerms <- DoublePermsT
 SPECIFICATION Spec
